@@ -86,7 +86,10 @@ func (plan shapePlan) userFeaturesMatch(other shapePlan) bool {
 }
 
 func (plan shapePlan) equal(other shapePlan) bool {
-	return plan.props == other.props && plan.userFeaturesMatch(other)
+	// the variation indices (shaper.key) select the alternate lookups of the
+	// FeatureVariations tables : a plan compiled for other coordinates must not be reused
+	return plan.props == other.props && plan.userFeaturesMatch(other) &&
+		plan.shaper.key == other.shaper.key
 }
 
 // Constructs a shaping plan for a combination of @face, @userFeatures, @props,
